@@ -512,6 +512,20 @@ def g(x: {narrow}) -> ({wide}, uint256):
     a, b = self._p(x)
     return a, b
 """
+    if kind == "ternary":
+        return f"""
+a: {narrow}
+@external
+def f(x: {narrow}) -> {wide}:
+    y: {narrow} = x
+    z: {narrow} = x
+    w: {wide} = y if len(x) > 0 else z
+    return w
+@external
+def g(x: {narrow}) -> {wide}:
+    self.a = x
+    return self.a if len(x) > 0 else x
+"""
     if kind == "memory":
         return f"""
 @external
